@@ -47,7 +47,7 @@ ASSUME SixDeltas == DecSum0 = W(46412, 55894)   \* 6 * 0x9E3779B9 mod 2^32 = 0xB
 
 (* (b) ------------------------------------------------------------------- *)
 Block(i) == [j \in 1..5 |-> Hash(i, 10 + j)]
-TimeOf(i) == LET h == Hash(i, 20) IN IF i % 7 = 0 THEN h ELSE W(24576 + h[1] % 4096, h[2])
+TimeOf(i) == LET h == Hash(i, 20) IN IF i % 7 = 0 THEN h ELSE W(24576 + (h[1] % 4096), h[2])
 AddrOf(i) == LET h == Hash(i, 21) IN (h[1] % 256) * M16 + h[2]
 ASSUME RoundTrip ==
   \A i \in 1..N : LET k == MakeKey(TimeOf(i), AddrOf(i))
@@ -95,7 +95,7 @@ Tuple(i) ==
   [ addr |-> AddrOf(i), magic |-> IF i % 2 = 0 THEN 16 ELSE 32, ts |-> TimeOf(i),
     type |-> i % 16, notrack |-> (i \div 16) % 2, stealth |-> (i \div 32) % 2,
     vs |-> h[1][1] % 1024, gps |-> h[1][2] % 4096, alt |-> h[2][1] % 8192,
-    lat |-> ((h[3][1] % 16384) * M16 + h[3][2]) % 1800000001 - 900000000,
+    lat |-> (((h[3][1] % 16384) * M16 + h[3][2]) % 1800000001) - 900000000,
     lon |-> ((((h[4][1] % 32768) * M16 + h[4][2])) % 1800000001) * (IF i % 3 = 0 THEN -1 ELSE 1),
     mult |-> h[2][2] % 4, sp0 |-> h[5][1] % 8, sp1 |-> h[5][2] % 2, sp2 |-> h[6][1] % 1024,
     ns |-> WordBytes(h[7]), ew |-> WordBytes(h[8]), tail |-> <<h[6][2] % 256, h[6][2] \div 256>> ]
